@@ -78,7 +78,7 @@ size_t encode(util::FilePiece &in, util::FileStream &out, char delimiter, std::v
 		while (true) {
 			// Is this the end of the input? Then stop reading this document and
 			// also stop processing documents in general.
-			if (!in.ReadLineOrEOF(line, delimiter, true)) {
+			if (!in.ReadLineOrEOF(line, delimiter, false)) {
 				is_eof = true;
 				break;
 			}
